@@ -43,6 +43,8 @@ func (sh *Shared) bindDecls(cs *ContractSet) error {
 			sh.nonNilField[key] = true
 		case "elems_nonnil":
 			sh.elemsNonNil[key] = true
+		case "mapvals_nonnil":
+			sh.mapValsNonNil[key] = true
 		default:
 			return fmt.Errorf("typeinv: unknown kind %s", ti.Kind)
 		}
